@@ -270,14 +270,30 @@ theorem LocRows.cons_left {b : Buf} {l : LCells} {lr : List LCells} :
   | [], h => False.elim h
   | _ :: _, _ => by simp
 
-theorem scan_encode_core (t : Ty) (v : Val) (rest : List Nat) (cap : Nat) (s : St)
+theorem finish_WF {s1 s2 : St} {w : Nat} (h2 : (if s1.n = 0 then s1.getRow.1 else s1) = s2)
+    (hwf : WF s2 w) : WF (finish s1) w := by
+  unfold finish
+  simp only [h2]
+  obtain ⟨a, b, c, d⟩ := hwf
+  refine ⟨a, b, ?_, ?_⟩
+  · intro row hrow
+    rcases List.mem_append.mp hrow with h | h
+    · obtain ⟨r0, hr0, rfl⟩ := List.mem_map.mp h
+      have := c r0 (List.mem_of_mem_take hr0)
+      simp [bcast, this, b]
+    · exact c row (List.mem_of_mem_drop h)
+  · simp only [List.length_append, List.length_map, List.length_take, List.length_drop]
+    omega
+
+/-- `scan_encode` with the state invariant of the (reused) decoder re-established afterwards -/
+theorem scan_encode_core_wf (t : Ty) (v : Val) (rest : List Nat) (cap : Nat) (s : St)
     (hdom : t.inDomain = true) (hsel : t.sels = List.range t.nsel)
     (hwt : WellTyped t v = true)
     (hsize : (enc t v ++ rest).length < 2 ^ 63) (hcap : (enc t v ++ rest).length ≤ cap)
     (hs : s.ncols = t.nsel ∧ s.single.length = t.nsel ∧ (∀ row ∈ s.coll, row.length = t.nsel) ∧
       s.n ≤ s.coll.length) :
     ∃ s', resultScan ⟨enc t v ++ rest, cap⟩ t s = .ok s' ∧
-      s'.rows.map (fun row => row.map (cb ⟨enc t v ++ rest, cap⟩)) = rowsOf t v := by
+      s'.rows.map (fun row => row.map (cb ⟨enc t v ++ rest, cap⟩)) = rowsOf t v ∧ WF s' t.nsel := by
   generalize hbdef : (⟨enc t v ++ rest, cap⟩ : Buf) = b
   have hb : BufOK b := by subst hbdef; exact ⟨hcap, hsize⟩
   have hat : At b 0 (enc t v) := by subst hbdef; exact ⟨[], rest, by simp, rfl⟩
@@ -320,9 +336,21 @@ theorem scan_encode_core (t : Ty) (v : Val) (rest : List Nat) (cap : Nat) (s : S
         rfl
   obtain ⟨lrF, rowsF, k1, k2, k3, k4⟩ := key
   obtain ⟨p1, p2, p3, p4⟩ := pushRows_spec lrF hwf0'
+  refine ⟨?_, finish_WF k3 p1⟩
   rw [finish_rows k3 p1, p2, p4, p3, hn0, hsg, k4]
   simp only [List.take_zero, List.nil_append]
   have n1 : (lc.map (·.1)).Nodup := (h1.keys.trans (leaves_keys t v)).nodup hS
   exact rows_correct t.nsel t.sels hS h1 n1 lrF rowsF k1 k2
+
+theorem scan_encode_core (t : Ty) (v : Val) (rest : List Nat) (cap : Nat) (s : St)
+    (hdom : t.inDomain = true) (hsel : t.sels = List.range t.nsel)
+    (hwt : WellTyped t v = true)
+    (hsize : (enc t v ++ rest).length < 2 ^ 63) (hcap : (enc t v ++ rest).length ≤ cap)
+    (hs : s.ncols = t.nsel ∧ s.single.length = t.nsel ∧ (∀ row ∈ s.coll, row.length = t.nsel) ∧
+      s.n ≤ s.coll.length) :
+    ∃ s', resultScan ⟨enc t v ++ rest, cap⟩ t s = .ok s' ∧
+      s'.rows.map (fun row => row.map (cb ⟨enc t v ++ rest, cap⟩)) = rowsOf t v := by
+  obtain ⟨s', h1, h2, _⟩ := scan_encode_core_wf t v rest cap s hdom hsel hwt hsize hcap hs
+  exact ⟨s', h1, h2⟩
 
 end Shovel.Abi
